@@ -626,7 +626,15 @@ func genCases(e *env, o *common.Opts, rng *rand.Rand, res *common.Result) []*cas
 	}
 	for _, shape := range xShapeNames {
 		for k := 0; k < perShape; k++ {
-			p := GenXProg(rng, id, shape, false)
+			p := GenXProg(rng, id, shape, "")
+			cases = append(cases, progCase(p, rng, k%2 == 1))
+			id++
+		}
+	}
+	// one module spread over several files joined by #include (no flag)
+	for _, shape := range []string{"chain", "diamond", "fan", "mixed"} {
+		for k := 0; k < (perShape+1)/2; k++ {
+			p := GenXProg(rng, id, shape, "split")
 			cases = append(cases, progCase(p, rng, k%2 == 1))
 			id++
 		}
@@ -634,7 +642,7 @@ func genCases(e *env, o *common.Opts, rng *rand.Rand, res *common.Result) []*cas
 	// the same layouts under -module-cycle, with the same module name in different files
 	for _, shape := range []string{"chain", "diamond", "mixed"} {
 		for k := 0; k < (perShape+1)/2; k++ {
-			p := GenXProg(rng, id, shape, true)
+			p := GenXProg(rng, id, shape, "cycle")
 			cases = append(cases, progCase(p, rng, k%2 == 0))
 			id++
 		}
